@@ -22,6 +22,8 @@ LOCALS = {"len": 0, "copy_len": 1, "n_extra_blocks": 2}
 
 
 class Tr(gen_submit.Tr):
+    topup = False
+
     def __init__(self, enums):
         super().__init__(enums)
         self.alias = {}
@@ -52,7 +54,10 @@ class Tr(gen_submit.Tr):
             if ck == "IntegralCast":
                 bits, sg = width(n)
                 ib, isg = width(inner)
-                if sg or isg:
+                i0 = strip(inner)
+                truth = (i0.get("kind") == "BinaryOperator" and i0.get("opcode") in ("<", ">", "<=", ">=", "==", "!=", "&&", "||")) or \
+                        (i0.get("kind") == "UnaryOperator" and i0.get("opcode") == "!")
+                if (sg or isg) and not (truth and not sg):
                     raise NoFit("signed conversion of a non-constant")
                 return self.expr(inner) if bits >= ib else "(.trunc %d (%s))" % (bits, self.expr(inner))
             raise NoFit("cast " + str(ck))
@@ -63,10 +68,13 @@ class Tr(gen_submit.Tr):
             a, b = kids(n)
             if op in ("&&", "||"):
                 return "(.%s (%s) (%s))" % ("land" if op == "&&" else "lor", self.expr(a), self.expr(b))
-            if op in ("<", "=="):
+            if op in ("<", "==", ">=", ">", "<="):
                 if width(a)[1] or width(b)[1]:
                     raise NoFit("signed comparison")
-                return "(.%s (%s) (%s))" % ("lt" if op == "<" else "eq", self.expr(a), self.expr(b))
+                ea, eb = self.expr(a), self.expr(b)
+                return {"<": "(.lt (%s) (%s))" % (ea, eb), "==": "(.eq (%s) (%s))" % (ea, eb),
+                        ">=": "(.lnot (.lt (%s) (%s)))" % (ea, eb), ">": "(.lt (%s) (%s))" % (eb, ea),
+                        "<=": "(.lnot (.lt (%s) (%s)))" % (eb, ea)}[op]
             bits, sg = width(n)
             if sg:
                 raise NoFit("signed arithmetic on a non-constant")
@@ -94,6 +102,8 @@ class Tr(gen_submit.Tr):
         """'incoming' / 'part' for an expression denoting the caller's buffer / ctx->partial_block_buffer, else None"""
         n = strip(n)
         if n.get("kind") == "DeclRefExpr":
+            if self.topup and n["referencedDecl"]["name"] == "buffer" and n["referencedDecl"].get("kind") == "ParmVarDecl":
+                return "incoming"
             return self.alias.get(n["referencedDecl"]["name"])
         if n.get("kind") == "UnaryOperator" and n.get("opcode") == "&":      # &ctx->partial_block_buffer
             return self.ptr(kids(n)[0])
@@ -132,7 +142,7 @@ class Tr(gen_submit.Tr):
                         init = kids(v)
                         if nm in ("buffer", "buf") and init and self.ptr(init[0]):
                             self.alias[nm] = self.ptr(init[0])
-                        elif nm in LOCALS and init:
+                        elif nm in LOCALS and init and not (self.topup and nm == "len"):
                             ie = strip(init[0])
                             if nm == "n_extra_blocks" and ie.get("kind") == "CallExpr" and callee(ie) == "hash_pad":
                                 a = kids(ie)[1:]
@@ -186,6 +196,16 @@ class Tr(gen_submit.Tr):
                     if f in FIELDS:
                         emit(".setF .%s (%s)" % (FIELDS[f], self.expr(rhs)))
                         continue
+                    if l0.get("kind") == "DeclRefExpr" and l0["referencedDecl"]["name"] in LOCALS and \
+                            l0["referencedDecl"].get("kind") == "VarDecl":
+                        emit(".setLoc %d (%s)" % (LOCALS[l0["referencedDecl"]["name"]], self.expr(rhs)))
+                        continue
+                    if self.topup and f == "incoming_buffer":
+                        r = strip(rhs)
+                        if r.get("kind") == "BinaryOperator" and r.get("opcode") == "+" and self.ptr(kids(r)[0]) == "incoming":
+                            emit(".advIn (%s)" % self.expr(kids(r)[1]))
+                            continue
+                        raise NoFit("incoming_buffer store")
                     if jf == "buffer":
                         p = self.ptr(rhs)
                         if p is None:
@@ -197,6 +217,11 @@ class Tr(gen_submit.Tr):
                         continue
                     if l0.get("kind") == "DeclRefExpr" and l0["referencedDecl"]["name"] == "ctx":
                         r = strip(rhs)
+                        if self.topup and r.get("kind") == "CallExpr" and re.search(r"_mb_mgr_submit_|_sb_mgr_submit_", callee(r) or "") \
+                                and self.job_buf == "part" and self.job_len:
+                            emit(".submitPart (%s)" % self.job_len)
+                            self.job_buf = self.job_len = None
+                            continue
                         if r.get("kind") == "CallExpr" and re.search(r"_mb_mgr_submit_|_sb_mgr_submit_", callee(r) or "") \
                                 and self.job_buf and self.job_len and i < len(stmts) and stmts[i].get("kind") == "ContinueStmt":
                             i += 1
@@ -220,10 +245,22 @@ class Tr(gen_submit.Tr):
                                 raise NoFit("shift count")
                             emit(".setLoc %d (.shr (.loc %d) %d)" % (li, li, sh))
                             continue
+                    f = self.member(lhs)
+                    if self.topup and f in FIELDS and op == "+=":
+                        emit(".setF .%s (.trunc 32 (.add (.fld .%s) (%s)))" % (FIELDS[f], FIELDS[f], self.expr(rhs)))
+                        continue
                     raise NoFit("compound assignment")
                 if k == "CallExpr":
                     cal = callee(s) or ""
                     a = kids(s)[1:]
+                    if self.topup and re.fullmatch(r"memcpy|memcpy_\w+", cal) and len(a) == 3 and self.ptr(a[1]) == "incoming":
+                        d = strip(a[0])
+                        if d.get("kind") == "UnaryOperator" and d.get("opcode") == "&":
+                            sub = strip(kids(d)[0])
+                            if sub.get("kind") == "ArraySubscriptExpr" and self.ptr(kids(sub)[0]) == "part":
+                                emit(".cpyHead (%s) (%s)" % (self.expr(kids(sub)[1]), self.expr(a[2])))
+                                continue
+                        raise NoFit("top-up copy")
                     if re.fullmatch(r"memcpy|memcpy_\w+", cal) and len(a) == 3 and self.ptr(a[0]) == "part":
                         src = strip(a[1])
                         if src.get("kind") == "BinaryOperator" and src.get("opcode") == "+" and self.ptr(kids(src)[0]) == "incoming":
